@@ -38,6 +38,35 @@ SHM_GARBAGE = {"unknown-tag": "ff2067617262616765", "empty": "", "non-ascii-key"
 WHENS = ["before", "during", "after"]
 
 
+def run_token(uid):
+    """the part of the run's uid that every host name, shm segment and /tmp file of the run contains"""
+    return uid[2:]
+
+
+def host_names(case):
+    """Executor host ids of the run. Default: <uid>h0, <uid>h1, ... `case["names"]`: templates with `{u}` (the run token),
+    e.g. ["{u}1", "g{u}1"]: the first name is a proper suffix of the second. Every name contains the token, so sockets
+    in /tmp and segments in /dev/shm stay attributable to the run (and to one host: `segment_host`)."""
+    uid = case["uid"]
+    if case.get("names"):
+        return [t.replace("{u}", run_token(uid)) for t in case["names"]][: case["hosts"]]
+    return [f"{uid}h{i}" for i in range(case["hosts"])]
+
+
+def segment_host(name, hosts):
+    """the host whose shm server made /dev/shm/<name>: shmid = "sCasc" + host + leading hex digits of an md5, 24 characters
+    in all. Exact attribution - one host name may be a prefix of another one."""
+    best = None
+    for h in hosts:
+        pre = "sCasc" + h
+        if name.startswith(pre):
+            rest = name[len(pre):]
+            if all(c in "0123456789abcdef" for c in rest) and (len(name) == 24 or len(pre) >= 24):
+                if best is None or len(h) > len(best):
+                    best = h
+    return best
+
+
 # ----------------------------------------------------------------------------- job (runs in workers)
 
 def make_job(case):
@@ -45,9 +74,11 @@ def make_job(case):
 
     fault = case["fault"]
     when = case["when"]
-    ftask = case["task"]
+    ftasks = case["task"].split("+")         # "a+b": whichever of the two runs where `on_host` says
     code = int(case.get("code", 3))
-    victim = case.get("victim", "own")
+    victim = case.get("victim", "own")       # own | other | name:<i> (the i-th host of the run, whoever runs the task)
+    on_host = case.get("on_host")            # None | i: the fault fires only in a task that runs on the i-th host
+    names = host_names(case) if "uid" in case else []
     pidfile = case["pidfile"]
     datagram = bytes.fromhex(SHM_GARBAGE[case.get("datagram", "unknown-tag")])
 
@@ -58,7 +89,7 @@ def make_job(case):
                 open(pidfile + ".started", "w").close()       # marker: the job has started (first task body entered)
             except OSError:
                 pass
-        if fault == "none" or task != ftask or at != when:
+        if fault == "none" or task not in ftasks or at != when:
             return
         import json as _j
         import os as _o
@@ -68,12 +99,26 @@ def make_job(case):
 
         def _mark(victim_host=""):
             try:
-                with open(pidfile + ".fault", "w") as _f:     # marker: the fault was injected (and on which host's helper)
+                with open(pidfile + ".fault", "w") as _f:     # marker: the fault was injected (and on which host)
                     _f.write(victim_host)
             except OSError:
                 pass
+        _me = ""
+        if on_host is not None or len(ftasks) > 1:
+            # where am I? (the executor that forked this worker is listed in the pid file)
+            try:
+                _me = ([h for h, d in _j.load(open(pidfile)).items() if d["exec"] == _o.getppid()] + [""])[0]
+            except (OSError, ValueError):
+                _me = ""
+            if on_host is not None and _me != names[on_host]:
+                return
+            try:
+                _fd = _o.open(pidfile + ".once", _o.O_CREAT | _o.O_EXCL | _o.O_WRONLY)     # one injection per run
+                _o.close(_fd)
+            except OSError:
+                return
         if fault in ("raise", "exit", "kill9"):
-            _mark()
+            _mark(_me)
         if fault == "raise":
             raise RuntimeError("c05-injected-task-failure")
         if fault == "exit":
@@ -84,7 +129,10 @@ def make_job(case):
         pids = _j.load(open(pidfile))
         me = [h for h, d in pids.items() if d["exec"] == _o.getppid()]
         others = [h for h in pids if h not in me]
-        host = me[0] if (victim == "own" or not others) else others[0]
+        if victim.startswith("name:"):
+            host = names[int(victim[5:])]
+        else:
+            host = me[0] if (victim == "own" or not others) else others[0]
         _mark(host)
         if fault == "kill-data":
             _o.kill(pids[host]["data"], _s.SIGKILL)
@@ -171,11 +219,42 @@ def make_job(case):
 
 # ----------------------------------------------------------------------------- runner (subprocess)
 
-def _launch_executor(job, controller_address, workers, port_base, host, pidq):
+def _stamp(path):
+    try:
+        with open(path, "w") as f:
+            f.write(repr(time.time()))
+    except OSError:
+        pass
+
+
+def _launch_executor(job, controller_address, workers, port_base, host, pidq, mark=None):
     import logging
     logging.disable(logging.CRITICAL)
     from cascade.executor.executor import Executor
     ex = Executor(job, controller_address, workers, host, port_base, None)
+    if mark:
+        # observation only (instance attributes of this process' objects; nothing in /repo changes): WHEN this executor read an
+        # ExecutorShutdown from the controller, and WHEN it reported its own ExecutorFailure / ExecutorExit
+        real_recv, real_send = ex.mlistener.recv_messages, ex.sender.send
+
+        def recv_messages(*a, **k):
+            ms = real_recv(*a, **k)
+            for m in ms:
+                if type(m).__name__ == "ExecutorShutdown" and not os.path.exists(mark + ".shutdown"):
+                    _stamp(mark + ".shutdown")
+            return ms
+
+        def send(h, m):
+            if type(m).__name__ in ("ExecutorFailure", "ExecutorExit") and not os.path.exists(mark + ".reported"):
+                _stamp(mark + ".reported")
+                try:
+                    with open(mark + ".reported.what", "w") as f:
+                        f.write(type(m).__name__ + ": " + str(getattr(m, "detail", ""))[:200])
+                except OSError:
+                    pass
+            return real_send(h, m)
+        ex.mlistener.recv_messages = recv_messages
+        ex.sender.send = send
     # the shm port is the one the executor has published for its workers (cascade.shm.api.publish_client_port)
     try:
         shm_port = int(os.environ["CASCADE_SHM_PORT"])
@@ -222,9 +301,9 @@ def runner_main(case):
         c = f"tcp://localhost:{port}"
         ctx = get_context("fork")
         pidq = ctx.Queue()
-        hosts = [f"{uid}h{i}" for i in range(case["hosts"])]
+        hosts = host_names(case)
         for i, h in enumerate(hosts):
-            p = ctx.Process(target=_launch_executor, args=(job, c, case["workers"], port + 1 + i * 10, h, pidq))
+            p = ctx.Process(target=_launch_executor, args=(job, c, case["workers"], port + 1 + i * 10, h, pidq, f"/tmp/{uid}.x.{h}"))
             p.start()
         pids = {}
         for _ in hosts:
@@ -269,6 +348,7 @@ def runner_main(case):
         out["ended"] = "error"
         out["error"] = f"{type(e).__name__}: {str(e)[:300]}"
     out["t_run"] = round(time.time() - t1, 2)
+    out["t_end"] = time.time()
     _emit(out)
     os._exit(0)
 
@@ -324,8 +404,9 @@ def _is_tracker(cmd):
 
 
 def _shm_segments(uid):
+    tok = run_token(uid)
     try:
-        return sorted(f for f in os.listdir("/dev/shm") if f.startswith(f"sCasc{uid}"))
+        return sorted(f for f in os.listdir("/dev/shm") if f.startswith("sCasc") and tok in f)
     except OSError:
         return []
 
@@ -356,13 +437,13 @@ for _ in range(5):
         break
     time.sleep(0.2)
 for f in os.listdir('/dev/shm'):
-    if f.startswith('sCasc' + uid):
+    if f.startswith('sCasc') and uid[2:] in f:
         try:
             os.unlink('/dev/shm/' + f)
         except OSError:
             pass
 for f in os.listdir('/tmp'):
-    if f.startswith(uid):
+    if uid[2:] in f:
         try:
             os.unlink('/tmp/' + f)
         except OSError:
@@ -386,6 +467,8 @@ def run_case(case, deadline_s=30.0, settle_s=6.0, module="ekw.c05_cluster"):
     `module`: the runner module started as `python -m <module> <case json>` (it calls its own runner_main; used by ekw.c01_real)."""
     case = dict(case)
     uid = "v5%x%x" % (os.getpid() % 0xFFFF, int(time.time() * 1000) % 0xFFFFFF)
+    if case.get("names"):
+        uid = "v5%04x%04x" % (os.getpid() % 0xFFFF, int(time.time() * 1000) % 0xFFFF)      # short names: room for the md5 digits in the shm ids
     case["uid"] = uid
     case["port"] = alloc_port_base()
     case["pidfile"] = f"/tmp/{uid}.pids"
@@ -415,7 +498,7 @@ def run_case(case, deadline_s=30.0, settle_s=6.0, module="ekw.c05_cluster"):
         if b"\n" in buf:
             try:
                 r = json.loads(buf.split(b"\n")[0].decode())
-                obs.update({k: r.get(k) for k in ("ended", "error", "outputs", "phase", "t_run", "t_setup")})
+                obs.update({k: r.get(k) for k in ("ended", "error", "outputs", "phase", "t_run", "t_setup", "t_end")})
             except ValueError:
                 obs["ended"] = "infra"
                 obs["error"] = "unparsable runner output"
@@ -440,6 +523,7 @@ def run_case(case, deadline_s=30.0, settle_s=6.0, module="ekw.c05_cluster"):
         except OSError:
             obs["victim_host"] = ""
         obs["uid"] = uid
+        obs["hosts"] = host_names(case) if "hosts" in case else []
         if obs["ended"] in ("ok", "error"):
             # the executors get a bounded time to finish their teardown
             tend = time.time() + settle_s
@@ -462,6 +546,22 @@ def run_case(case, deadline_s=30.0, settle_s=6.0, module="ekw.c05_cluster"):
                         pass
                 time.sleep(0.5)
             obs["n_leftover_procs"] = len(obs["leftover_procs"])
+            obs["t_quiet"] = time.time()
+            # what each executor saw / said, and when (seconds relative to the end of `run`)
+            ev = {}
+            for h in obs["hosts"]:
+                e = {}
+                for k in ("shutdown", "reported"):
+                    try:
+                        e[k] = round(float(open(f"/tmp/{uid}.x.{h}.{k}").read()) - (obs.get("t_end") or 0.0), 2)
+                    except (OSError, ValueError):
+                        e[k] = None
+                try:
+                    e["what"] = open(f"/tmp/{uid}.x.{h}.reported.what").read()
+                except OSError:
+                    pass
+                ev[h] = e
+            obs["exec_events"] = ev
             # segments are looked at only after every process of the run has been given the chance to exit
             obs["leftover_shm"] = _shm_segments(uid)
     finally:
@@ -511,7 +611,7 @@ def _cleanup(proc, sid, uid, pidfile):
             pass
     try:
         for f in os.listdir("/tmp"):
-            if f.startswith(uid):
+            if run_token(uid) in f:
                 try:
                     os.unlink("/tmp/" + f)
                 except OSError:
